@@ -571,7 +571,42 @@ def rule_merge(ctx) -> None:
                   "target.put can overwrite an earlier worker's value")
 
 
+def eviction_loops(ctx) -> List[Tuple[str, Func, ast.While, Tuple[str, ...], str]]:
+    """(class qual, method, loop, capacity attrs, container attr) for every `while` of the bounded containers that pops"""
+    from .. import hazards
+    out = []
+    for cq, meth, cont, caps, idiom in CONTAINERS:
+        for mname, fn in sorted(ctx.prog.methods(cq).items()):
+            for lp in [x for x in walk_no_defs(fn.node) if isinstance(x, ast.While)]:
+                if hazards.pops_in_loop(lp):
+                    out.append((cq, fn, lp, caps, cont))
+    return out
+
+
+def rule_evict_completes(ctx) -> None:
+    """the eviction loop is what restores `size <= cap`; it does so only if it runs until its own condition is false.  A break,
+    a return, or an exception from the user's eviction callback that is swallowed by a handler *around* the loop (instead of
+    around the callback) ends it early: put() returns normally and the container stays over capacity."""
+    from .. import hazards
+    loops = eviction_loops(ctx)
+    ctx.floor("C15.EVICT", "eviction loops of the bounded containers", len(loops), 5)
+    for cq, fn, lp, caps, cont in loops:
+        ctx.analysed_funcs.add(fn.qual)
+        esc = hazards.loop_escapes(ctx, fn, lp)
+        key = f"{fn.qual}/eviction-runs-to-its-condition"
+        if esc:
+            kind, node = esc[0]
+            why = {"break": "a `break` leaves the loop", "return": "a `return` leaves the loop",
+                   "swallowed-exception": f"`{src(node)[:40]}` (a caller-supplied callback) can raise, and the handler that swallows the exception encloses the whole loop"}[kind]
+            ctx.violation("C15.EVICT", key, fn.loc(node), f"{why} while `{src(lp.test)[:60]}` may still be true: the remaining evictions are skipped, the method returns normally and "
+                          f"self.{cont} stays above its capacity")
+        else:
+            ctx.holds("C15.EVICT", key, fn.loc(lp), "the loop ends only when its condition is false (no break / return; callbacks are guarded inside the body)")
+    ctx.info("C15.EVICT", "positive-control/loop-escapes", "sa/hazards.py", hazards.controls(ctx, "clematis.engine.health", ["loop"]))
+
+
 def run(ctx) -> None:
+    rule_evict_completes(ctx)
     rule_lock(ctx)
     rule_clock(ctx)
     rule_ttl_stamp(ctx)
